@@ -22,6 +22,12 @@ type mGlob struct {
 	definer int // instance that defines the global
 }
 
+type mMem struct {
+	definer  int // instance that defines the memory (MemoryInstance.ownerModuleEngine keeps it reachable)
+	lastGrow int // step of the last successful memory.grow, -1 none
+	pages    int
+}
+
 type mInst struct {
 	ok       bool // the model believes the instance was created
 	spec     int
@@ -38,6 +44,10 @@ type mInst struct {
 	impFrom  int  // instance the function import is bound to, -1 none
 	globFrom int  // instance the funcref global is imported from, -1 none
 	handed   bool // handed out a reference it does not own to a holder that does not keep it alive
+	mem      *mMem
+	memFrom  int  // definer of the imported memory, -1 own
+	elemDrop bool // the passive element segment was dropped
+	dataDrop bool
 }
 
 type mCM struct {
@@ -109,7 +119,7 @@ func (m *model) resolvable(rt int, sp modSpec) bool {
 		es := m.specs[m.insts[h].spec]
 		return (!tab || es.ExpTab) && (!glob || es.ExpGlob)
 	}
-	return need(sp.ImpFrom, false, false) && need(sp.TabFrom, true, false) && need(sp.GlobFrom, false, true)
+	return need(sp.ImpFrom, false, false) && need(sp.TabFrom, true, false) && need(sp.GlobFrom, false, true) && need(sp.MemFrom, false, false)
 }
 
 func (m *model) live(h int) bool {
@@ -118,7 +128,7 @@ func (m *model) live(h int) bool {
 
 func (m *model) addInst(rt, spec, cm int, name string) {
 	sp := m.specs[spec]
-	in := &mInst{spec: spec, rt: rt, cm: cm, name: name, impFrom: -1, globFrom: -1}
+	in := &mInst{spec: spec, rt: rt, cm: cm, name: name, impFrom: -1, globFrom: -1, memFrom: -1}
 	h := len(m.insts)
 	m.insts = append(m.insts, in)
 	if !m.rtUsable(rt) || !m.resolvable(rt, sp) || (name != "" && m.hasName(rt, name)) {
@@ -146,6 +156,12 @@ func (m *model) addInst(rt, spec, cm int, name string) {
 		in.globFrom = in.glob.definer
 	} else {
 		in.glob = &mGlob{owner: -1, definer: h}
+	}
+	if sp.MemFrom != "" {
+		in.mem = m.insts[m.names[rt][sp.MemFrom]].mem
+		in.memFrom = in.mem.definer
+	} else {
+		in.mem = &mMem{definer: h, lastGrow: -1, pages: 1}
 	}
 	if sp.GlobFrom == "" {
 		switch {
@@ -239,12 +255,12 @@ func (m *model) apply(s step) {
 				// instance is treated as unknown (never used by later steps; the generator
 				// makes it anonymous so that it cannot take a name either).
 				m.labels["inst-after-sibling-code-closed"] = true
-				m.insts = append(m.insts, &mInst{impFrom: -1, globFrom: -1})
+				m.insts = append(m.insts, &mInst{impFrom: -1, globFrom: -1, memFrom: -1})
 			} else {
 				m.addInst(c.rt, c.spec, s.CM, s.Name)
 			}
 		} else {
-			m.insts = append(m.insts, &mInst{impFrom: -1, globFrom: -1})
+			m.insts = append(m.insts, &mInst{impFrom: -1, globFrom: -1, memFrom: -1})
 		}
 	case "instbytes":
 		m.addInst(s.RT, s.Spec, -1, s.Name)
@@ -274,6 +290,43 @@ func (m *model) apply(s step) {
 			// the hander (e.g. an importer passing ref.func of its import back to the definer)
 			m.insts[s.Inst].handed = true
 			m.labels["reference-must-outlive-the-instance-that-handed-it-out"] = true
+		}
+	case "mem":
+		if !m.live(s.Inst) {
+			return
+		}
+		exec, fn := s.Inst, s.Fn
+		if b, ok := baseOf[s.Fn]; ok {
+			fn = b
+			if m.insts[s.Inst].impFrom >= 0 {
+				exec = m.insts[s.Inst].impFrom
+			}
+		}
+		ex := m.insts[exec]
+		switch fn {
+		case "tinit":
+			if !ex.elemDrop && s.Arg >= 0 && s.Arg < tableSlots {
+				ex.tab0.slots[s.Arg] = exec // f1 of the executing instance, from its passive segment
+			}
+		case "edrop":
+			ex.elemDrop = true
+		case "ddrop":
+			ex.dataDrop = true
+		case "mgrow":
+			if s.Arg > 0 && ex.mem.pages+s.Arg <= 3 {
+				ex.mem.pages += s.Arg
+				ex.mem.lastGrow = m.n
+				if d := m.insts[ex.mem.definer]; d.closed && exec != ex.mem.definer {
+					m.labels["memory-grown-by-survivor-after-definer-closed"] = true
+				}
+			}
+		}
+		if exec != s.Inst && ex.closed {
+			m.labels["state-changing-code-of-closed-instance-run-by-importer"] = true
+			if ex.closedAt < m.lastGC && (fn == "minit" || fn == "tinit" || fn == "ddrop" || fn == "edrop") {
+				m.labels["passive-segment-of-closed-instance-used-after-gc"] = true
+				m.nontrivial = true
+			}
 		}
 	case "long":
 		c := &mCall{inst: s.Inst, finished: !m.live(s.Inst)}
@@ -381,6 +434,10 @@ func (m *model) observe() {
 				m.labels["use-after-hander-of-foreign-reference-collected"] = true
 			}
 		}
+		if a := in.impFrom; a >= 0 && m.insts[a].closed && m.insts[a].mem.lastGrow > m.insts[a].closedAt {
+			m.labels["code-of-closed-instance-sees-memory-grown-after-its-close"] = true
+			m.nontrivial = true
+		}
 		reach(in.impFrom, "import")
 		for _, o := range in.tab0.slots {
 			if len(in.tab0.involved) > 0 {
@@ -453,6 +510,7 @@ func (m *model) closureOf(roots []int) map[int]bool {
 		work = work[:len(work)-1]
 		in := m.insts[h]
 		add(in.impFrom)
+		add(in.memFrom) // MemoryInstance.ownerModuleEngine (both engines)
 		if m.cfg.Engine == "compiler" {
 			// an imported global points to the module engine of its owner (GlobalInstance.Me);
 			// the interpreter keeps global values in the GlobalInstance itself
@@ -536,7 +594,7 @@ func genSpecs(t *rapid.T) []modSpec {
 		} else {
 			// all imports of one module come from one name; which kinds is drawn
 			from := rapid.SampledFrom([]string{"a", "a", "b"}).Draw(t, "from")
-			kinds := rapid.SampledFrom([]int{0, 1, 1, 2, 2, 3, 3, 4, 5, 6, 7}).Draw(t, "import_kinds")
+			kinds := rapid.SampledFrom([]int{0, 1, 1, 2, 2, 3, 3, 4, 5, 6, 7, 8, 9, 9, 9, 11, 13, 15}).Draw(t, "import_kinds")
 			if kinds&1 != 0 {
 				s.ImpFrom = from
 			}
@@ -545,6 +603,9 @@ func genSpecs(t *rapid.T) []modSpec {
 			}
 			if kinds&4 != 0 {
 				s.GlobFrom = from
+			}
+			if kinds&8 != 0 {
+				s.MemFrom = from
 			}
 			s.ExpTab = rapid.IntRange(0, 3).Draw(t, "exp_tab") > 0
 			s.ExpGlob = rapid.IntRange(0, 2).Draw(t, "exp_glob") > 0
@@ -576,7 +637,7 @@ func genConfig(t *rapid.T) config {
 // keeps reports whether instance y keeps instance x reachable by one retention edge.
 func (m *model) keeps(y, x int) bool {
 	in := m.insts[y]
-	if in.impFrom == x || (m.cfg.Engine == "compiler" && in.globFrom == x) {
+	if in.impFrom == x || in.memFrom == x || (m.cfg.Engine == "compiler" && in.globFrom == x) {
 		return true
 	}
 	for _, z := range in.tab0.involved {
@@ -665,7 +726,7 @@ func genStep(t *rapid.T, m *model, excluded *int) (s step, ok bool) {
 	}
 	wanted := map[string]bool{} // names some spec imports from
 	for _, sp := range m.specs {
-		wanted[sp.ImpFrom], wanted[sp.TabFrom], wanted[sp.GlobFrom] = true, true, true
+		wanted[sp.ImpFrom], wanted[sp.TabFrom], wanted[sp.GlobFrom], wanted[sp.MemFrom] = true, true, true, true
 	}
 	// instOpts: instantiations expected to succeed; goneOpts: from a CompiledModule whose
 	// engine cache entry was deleted by closing a sibling made from the same bytes.
@@ -707,7 +768,7 @@ func genStep(t *rapid.T, m *model, excluded *int) (s step, ok bool) {
 			w *= 8
 		}
 		sp := m.specs[o.spec]
-		if sp.ImpFrom != "" || sp.TabFrom != "" || sp.GlobFrom != "" {
+		if sp.ImpFrom != "" || sp.TabFrom != "" || sp.GlobFrom != "" || sp.MemFrom != "" {
 			w *= 3
 		}
 		return w
@@ -745,6 +806,7 @@ func genStep(t *rapid.T, m *model, excluded *int) (s step, ok bool) {
 	add("instbytes", 1, len(bytesOpts) > 0)
 	add("call", 1, len(heldClosed) > 0)
 	add("move", 7, len(liveI) > 0)
+	add("mem", 6, len(liveI) > 0)
 	add("long", 2, len(liveI) > 0 && len(pending) < 2 && len(m.calls) < 4)
 	add("resume", 2, len(pending) > 0)
 	add("close", map[bool]int{true: 9, false: 4}[len(liveI) > 2], len(liveI) > 1)
@@ -834,6 +896,51 @@ func genStep(t *rapid.T, m *model, excluded *int) (s step, ok bool) {
 		if s.Dst == "slot" {
 			s.DTbl = rapid.IntRange(0, 1).Draw(t, "dtbl")
 			s.DSlot = rapid.IntRange(0, tableSlots-1).Draw(t, "dslot")
+		}
+	case "mem":
+		// memory and passive segments; favoured: an importer whose exporter is closed (the
+		// closed instance's code runs on the importer's behalf)
+		s.Inst = weighted(t, "inst", liveI, func(h int) int {
+			switch a := m.insts[h].impFrom; {
+			case a >= 0 && m.insts[a].closed:
+				return 8
+			case a >= 0:
+				return 3
+			}
+			return 1
+		})
+		var fns []string
+		for _, fn := range memFnNames {
+			_, fwd := baseOf[fn]
+			a := m.insts[s.Inst].impFrom
+			if fwd && a >= 0 && m.insts[a].closed && m.cfg.Term {
+				continue // would answer with an exit error and end the comparable part of the history
+			}
+			w := 1
+			if fwd && a >= 0 {
+				w = 3
+			}
+			if fn == "mgrow" || fn == "xgrow" {
+				w *= 2
+			}
+			if fn == "ddrop" || fn == "edrop" || fn == "xddrop" || fn == "xedrop" {
+				w = 1
+			}
+			for i := 0; i < w; i++ {
+				fns = append(fns, fn)
+			}
+		}
+		s.Fn = rapid.SampledFrom(fns).Draw(t, "fn")
+		switch memFns[s.Fn] {
+		case 1:
+			if s.Fn == "mgrow" || s.Fn == "xgrow" {
+				s.Arg = rapid.IntRange(0, 2).Draw(t, "pages")
+			} else {
+				s.Arg = rapid.IntRange(0, tableSlots-1).Draw(t, "arg")
+			}
+		case 2:
+			s.Arg = rapid.IntRange(0, tableSlots-1).Draw(t, "arg")
+			s.Val = rapid.IntRange(1, 255).Draw(t, "val")
 		}
 	case "long":
 		s.Inst = pick(liveI, "inst")
